@@ -90,6 +90,36 @@ func (x *Exec) finish(st *State, fr *Frame, retTo ssa.Value, res Val, deferred b
 	}
 	if retTo != nil {
 		fr.regs[retTo] = res
+		if call, ok := retTo.(*ssa.Call); ok {
+			if _, anns := x.siteAnns(st, fr, call.Call.Pos()); len(anns) > 0 {
+				env := x.siteEnv(st, fr, call.Call.Pos())
+				if res != nil {
+					env.vars["result"] = res
+					if tv, isT := res.(TupleV); isT {
+						for k, v := range tv {
+							env.vars[fmt.Sprintf("result%d", k)] = v
+						}
+					}
+				}
+				for _, a := range anns {
+					if a.Kind == "set" {
+						gs, isGhost := x.ghostSort(a.Ghost)
+						if !isGhost {
+							x.specFail(a.Cl, "set: %s is not a ghost", a.Ghost)
+						}
+						var hint types.Type
+						if gs == sInt {
+							hint = mathInt
+						}
+						v := x.evalTerm(env, a.Cl.Expr, hint, a.Cl)
+						if v.Sort != gs {
+							x.specFail(a.Cl, "set %s: sort %s does not match %s", a.Ghost, v.Sort, gs)
+						}
+						st.ghost[a.Ghost] = st.def("ghost_"+a.Ghost, v)
+					}
+				}
+			}
+		}
 	}
 	fr.pc++
 }
@@ -127,7 +157,11 @@ func (x *Exec) dispatch(st *State, fr *Frame, i *ssa.Call, cc *ssa.CallCommon, c
 			panic(unsupported{"dynamic call of " + cc.Value.Type().String() + " without a callback contract"})
 		}
 		// nil function value: calling it panics; obligation that it is not nil
-		x.safety(st, fr, "nil-func", tNot(tSame(cv, Term{S: "fn_nil", Sort: sFn})), pos, "called function value is not nil")
+		if x.curContract != nil && x.curContract.NoNilFn {
+			st.assume(tNot(tSame(cv, Term{S: "fn_nil", Sort: sFn})))
+		} else {
+			x.safety(st, fr, "nil-func", tNot(tSame(cv, Term{S: "fn_nil", Sort: sFn})), pos, "called function value is not nil")
+		}
 		return x.applyContract(st, fr, retTo, c, c.Key, cc.Signature(), append([]Val{cv}, args...), pos, deferred, nil)
 	}
 	panic(unsupported{fmt.Sprintf("call of %T", callee)})
@@ -331,6 +365,9 @@ func (x *Exec) applyContract(st *State, fr *Frame, retTo ssa.Value, c *Contract,
 	ne := mkEnv(st)
 	dead := false
 	for _, en := range c.Ensures {
+		if en.Internal {
+			continue
+		}
 		t := x.evalBool(ne, en.Expr, en)
 		if t.S == "false" {
 			dead = true
@@ -423,9 +460,9 @@ func (x *Exec) panicKind(st *State, pv Term, kind string) Term {
 		return Term{S: "(and ((_ is any_other) " + pv.S + ") (= (any_other_id " + pv.S + ") (- 1)))", Sort: sBool}
 	case "other":
 		// anything that is neither invalidData nor stopTest
-		return tAnd(tNot(tSame(pv, Term{S: "any_nil", Sort: sAny})), tNot(x.panicKind(st, pv, "invalidData")), tNot(x.panicKind(st, pv, "stopTest")))
+		return tAnd(tNot(tSame(pv, Term{S: "any_nil", Sort: sAny})), tNot(x.panicKind(st, pv, "goexit")), tNot(x.panicKind(st, pv, "invalidData")), tNot(x.panicKind(st, pv, "stopTest")))
 	case "notInvalidData":
-		return tAnd(tNot(tSame(pv, Term{S: "any_nil", Sort: sAny})), tNot(x.panicKind(st, pv, "invalidData")))
+		return tAnd(tNot(tSame(pv, Term{S: "any_nil", Sort: sAny})), tNot(x.panicKind(st, pv, "goexit")), tNot(x.panicKind(st, pv, "invalidData")))
 	}
 	panic(unsupported{"unknown panic kind " + kind})
 }
